@@ -92,6 +92,7 @@ func goFacts(p *pkgInfo) string {
 	casesPerStatement := false
 	selectCopiesCases := false
 	wrapperFramePerCall := false
+	wrapperRecvBound := false
 
 	if frun != nil {
 		// ---- call
@@ -196,6 +197,10 @@ func goFacts(p *pkgInfo) string {
 							if strings.HasPrefix(callBinGoArg, "reflect.New(") {
 								fresh = true
 							}
+							if strings.HasPrefix(callBinGoArg, "copyDeferArg(") {
+								// copyDeferArg (fingerprinted) is reflect.New(v.Type()).Elem() + Set(v)
+								fresh, set = true, true
+							}
 						}
 					case *ast.GoStmt:
 						callBinGoStmt = exprString(s)
@@ -238,6 +243,37 @@ func goFacts(p *pkgInfo) string {
 		}
 		// ---- genFunctionWrapper: one frame per call of the wrapper
 		if fd := common.FindFunc(frun, "", "genFunctionWrapper"); fd != nil {
+			// the receiver is read (`rcvr(f)`) when the wrapper is made, never inside the MakeFunc callback,
+			// and a value receiver is copied
+			early, late, copied := 0, 0, false
+			var walk func(nd ast.Node, inCallback bool)
+			walk = func(nd ast.Node, inCallback bool) {
+				ast.Inspect(nd, func(x ast.Node) bool {
+					switch y := x.(type) {
+					case *ast.FuncLit:
+						if y != nd {
+							walk(y.Body, inCallback || exprString(y.Type) == "func(in []reflect.Value) []reflect.Value")
+							return false
+						}
+					case *ast.CallExpr:
+						switch exprString(y) {
+						case "rcvr(f)":
+							if inCallback {
+								late++
+							} else {
+								early++
+							}
+						case "copyDeferArg(src)":
+							if !inCallback {
+								copied = true
+							}
+						}
+					}
+					return true
+				})
+			}
+			walk(fd.Body, false)
+			wrapperRecvBound = early > 0 && late == 0 && copied
 			ast.Inspect(fd.Body, func(nd ast.Node) bool {
 				fl, ok := nd.(*ast.FuncLit)
 				if !ok || p.isRuntimeClosure(fl) {
@@ -298,8 +334,8 @@ func goFacts(p *pkgInfo) string {
 
 	var b strings.Builder
 	b.WriteString("open YaegiVerif.ConcFrames in\n/-- interp/run.go call, callBin, getFunc, genFunctionWrapper, _select; interp/interp.go frame.clone -/\ndef goFacts : GoFacts :=\n")
-	fmt.Fprintf(&b, "  { goBinArgsCopied := %s,\n    srcArgsCopied := %s,\n    frameInClosure := %s,\n    wrapperFramePerCall := %s,\n    callBinGoArgsCopied := %s,\n    callBinGoArg := %s,\n    callBinGoStmt := %s,\n    getFuncClones := %s,\n    getFuncAncIsClone := %s,\n    getFuncStoreLocked := %s,\n    getFuncRestoreLocked := %s,\n    cloneLocked := %s,\n    cloneCopiesData := %s,\n    selectDoneLocked := %s,\n    casesPerStatement := %s,\n    selectCopiesCases := %s,\n    callArgStores := %s,\n    frameCellInits := %s,\n    goStmts := %s,\n    newFrameCalls := %s }\n",
-		boolLean(goBinArgsCopied), boolLean(srcArgsCopied), boolLean(frameInClosure), boolLean(wrapperFramePerCall),
+	fmt.Fprintf(&b, "  { goBinArgsCopied := %s,\n    srcArgsCopied := %s,\n    frameInClosure := %s,\n    wrapperFramePerCall := %s,\n    wrapperRecvBound := %s,\n    callBinGoArgsCopied := %s,\n    callBinGoArg := %s,\n    callBinGoStmt := %s,\n    getFuncClones := %s,\n    getFuncAncIsClone := %s,\n    getFuncStoreLocked := %s,\n    getFuncRestoreLocked := %s,\n    cloneLocked := %s,\n    cloneCopiesData := %s,\n    selectDoneLocked := %s,\n    casesPerStatement := %s,\n    selectCopiesCases := %s,\n    callArgStores := %s,\n    frameCellInits := %s,\n    goStmts := %s,\n    newFrameCalls := %s }\n",
+		boolLean(goBinArgsCopied), boolLean(srcArgsCopied), boolLean(frameInClosure), boolLean(wrapperFramePerCall), boolLean(wrapperRecvBound),
 		boolLean(callBinGoArgsCopied), common.LeanStr(callBinGoArg), common.LeanStr(callBinGoStmt),
 		boolLean(getFuncClones), boolLean(getFuncAncIsClone), boolLean(getFuncStoreLocked), boolLean(getFuncRestoreLocked),
 		boolLean(cloneLocked), boolLean(cloneCopiesData), boolLean(selectDoneLocked), boolLean(casesPerStatement), boolLean(selectCopiesCases),
